@@ -726,6 +726,14 @@ def run(model, rep, tier):
             rep.check(okk, "R-05.9", f9.qualname, where(f9, f9.node), "the chunked field is the last field of the text form",
                       f"{why}: with the default style a long value is broken into space-separated chunks, and only the LAST field is read back with concatenate_remaining_identifiers - "
                       "the chunks of a middle field are read as the following fields, so the text does not parse back", stmt="chunked-last")
+        # the reader's side: the chunks of that last field come back as several tokens
+        if okk and not stray and f9.cls is not None:
+            ft9 = next((k.methods["from_text"] for k in f9.cls.mro if hasattr(k, "methods") and "from_text" in k.methods), None)
+            if ft9 is not None:
+                joins = [c for c in ast.walk(ft9.node) if isinstance(c, ast.Call) and isinstance(c.func, ast.Attribute) and c.func.attr in ("concatenate_remaining_identifiers", "get_remaining")]
+                rep.check(bool(joins), "R-05.9", ft9.qualname, where(ft9, ft9.node), "the reader joins the remaining tokens of the chunked last field",
+                          f"{f9.qualname} prints its last field in chunks, but {ft9.qualname} reads it without concatenate_remaining_identifiers()/get_remaining(): "
+                          "only the first chunk is read and the rest is a syntax error (any value longer than one chunk, or any smaller chunk size)", stmt="chunked-reader")
     rep.floor("R-05.9", n_ch, 10)
     # ---------------------------------------------------------------- R-05.10
     fk = model.func("dns.style.BaseStyle.from_keywords")
@@ -814,6 +822,8 @@ def run(model, rep, tier):
 
 
 WITNESSES = [
+    {"id": "c05-sshfp-reader-single-token", "rule": "R-05.9", "file": "dns/rdtypes/ANY/SSHFP.py", "expect": "fires",
+     "old": "        fingerprint = tok.concatenate_remaining_identifiers().encode()\n", "new": "        fingerprint = tok.get_identifier().encode()\n"},
     {"id": "c05-tsig-error-wider-than-rcode", "rule": "R-05.11", "file": "dns/rdtypes/ANY/TSIG.py", "expect": "fires",
      "old": "        self.error = dns.rcode.Rcode.make(error)", "new": "        self.error = self._as_uint16(error)"},
     {"id": "c05-style-keyword-unknown-field", "rule": "R-05.10", "file": "dns/style.py", "expect": "fires",
